@@ -10,8 +10,13 @@ import (
 	"context"
 	"database/sql"
 	"database/sql/driver"
+	"encoding/binary"
+	"encoding/hex"
+	"encoding/json"
 	"errors"
 	"io/ioutil"
+	"net/http"
+	"net/http/httptest"
 	"os"
 	"path/filepath"
 	"strings"
@@ -140,7 +145,6 @@ func vfNewNode(t testing.TB) (*Pegnetd, func()) {
 	if err != nil {
 		t.Fatal(err)
 	}
-	db.SetMaxOpenConns(1)
 	p.DB = db
 	d := &Pegnetd{Pegnet: p, Config: conf, Sync: &pegnet.BlockSync{}}
 	return d, func() { vfSetFault("", 0); db.Close(); os.RemoveAll(dir) }
@@ -181,4 +185,68 @@ func vfStatus(t testing.TB, d *Pegnetd, h *factom.Bytes32) (height uint32, execu
 		t.Fatalf("status: %v", err)
 	}
 	return
+}
+
+// ---- a minimal fake factomd -------------------------------------------------------------------------
+// Serves "dblock-by-height" with a directory block that contains only the three mandatory system chains
+// (no PegNet chains): enough to drive SyncBlock / DBlockSync through blocks without tracked entries.
+
+func vfEmptyDBlock(t testing.TB, height uint32) []byte {
+	body := make([]byte, 0, 3*factom.DBlockEBlockLen)
+	elements := make([][]byte, 3)
+	for i, id := range []byte{0x0a, 0x0c, 0x0f} {
+		var chainID, keyMR factom.Bytes32
+		chainID[31] = id
+		keyMR[0] = id
+		binary.BigEndian.PutUint32(keyMR[28:], height)
+		el := append(append([]byte{}, chainID[:]...), keyMR[:]...)
+		elements[i] = el
+		body = append(body, el...)
+	}
+	bodyMR, err := factom.ComputeDBlockBodyMR(elements)
+	if err != nil {
+		t.Fatal(err)
+	}
+	hdr := make([]byte, factom.DBlockHeaderLen)
+	i := 1 + 4
+	i += copy(hdr[i:], bodyMR[:])
+	i += 32 + 32
+	binary.BigEndian.PutUint32(hdr[i:], uint32(1600000000/60)+height)
+	i += 4
+	binary.BigEndian.PutUint32(hdr[i:], height)
+	i += 4
+	binary.BigEndian.PutUint32(hdr[i:], 3)
+	return append(hdr, body...)
+}
+
+// vfFakeFactomd returns a client talking to an in-process server; failRequest(n) makes the n-th request fail (0 = never).
+func vfFakeFactomd(t testing.TB, tip uint32) (*factom.Client, func()) {
+	srv := httptest.NewServer(http.HandlerFunc(func(w http.ResponseWriter, r *http.Request) {
+		var req struct {
+			ID     json.RawMessage `json:"id"`
+			Method string          `json:"method"`
+			Params struct {
+				Height uint32 `json:"height"`
+			} `json:"params"`
+		}
+		if err := json.NewDecoder(r.Body).Decode(&req); err != nil {
+			http.Error(w, err.Error(), 400)
+			return
+		}
+		var result interface{}
+		switch req.Method {
+		case "dblock-by-height":
+			result = map[string]interface{}{"rawdata": hex.EncodeToString(vfEmptyDBlock(t, req.Params.Height))}
+		case "heights":
+			result = map[string]interface{}{"directoryblockheight": tip, "leaderheight": tip, "entryblockheight": tip, "entryheight": tip}
+		default:
+			http.Error(w, "unexpected method "+req.Method, 400)
+			return
+		}
+		w.Header().Set("Content-Type", "application/json")
+		json.NewEncoder(w).Encode(map[string]interface{}{"jsonrpc": "2.0", "id": req.ID, "result": result})
+	}))
+	cl := factom.NewClient()
+	cl.FactomdServer = srv.URL
+	return cl, srv.Close
 }
